@@ -157,3 +157,9 @@ MUTANTS += [
          new="""                stream.seek(entry_address + table_entry_size - (1 if _i > 1 else 0), SEEK_SET)
 """),
 ]
+MUTANTS += [dict(id="harness_probe_mdf_ctor", props=["C08","C09"], file="smpl_extract/alcohol/mdf.py",
+ old="""        num_sectors = parent_size // MDF_SECTOR_SIZE
+""", new="""        num_sectors = parent_size // MDF_SECTOR_SIZE
+        if parent_size % MDF_SECTOR_SIZE == 100:
+            raise ValueError("partial raw sector")
+""")]
